@@ -266,26 +266,69 @@ def r6_parent_counting(rule, root=None):
 
 
 def r5b_lru(rule, root=None):
+    """the recency ring's four operations, as effect summaries (fv/effects.py): which links are written with
+    what, under which conditions, reading the pre-update (`old`) or post-update state.  Independent of local
+    names, `let`s, cast idioms, `==` operand order and the order of writes that do not feed each other."""
+    from .. import effects as E
+
     LRU = "fidget-core/src/compiler/lru.rs"
+    C2 = ("!(i==self.head)", "(i!=self.data[self.head].prev)")
     want = {
-        "remove": "{letnode=self.data[(iasusize)];self.data[(node.prevasusize)].next=self.data[(iasusize)].next;self.data[(node.nextasusize)].prev=self.data[(iasusize)].prev;}",
-        "insert_before": "{letprev=self.data[(nextasusize)].prev;self.data[(prevasusize)].next=i;self.data[(nextasusize)].prev=i;self.data[(iasusize)]=LruNode{next:next,prev:prev};}",
-        "poke": "{letprev_newest=self.head;if(prev_newest==i){return;}elseif(self.data[(prev_newestasusize)].prev!=i){self.remove(i);self.insert_before(i,self.head);}self.head=i;}",
-        "pop": "{letout=self.data[(self.headasusize)].prev;self.head=out;out}",
+        "remove": [
+            ("write", (), "self.data[self.data[i].prev].next", "self.data[i].next"),
+            ("write", (), "self.data[self.data[i].next].prev", "new(self.data[i].prev)"),
+        ],
+        "insert_before": [
+            ("write", (), "self.data[self.data[next].prev].next", "i"),
+            ("write", (), "self.data[next].prev", "i"),
+            ("write", (), "self.data[i]", "LruNode{next:next,prev:self.data[next].prev}"),
+        ],
+        "poke": [
+            ("return", ("(i==self.head)",), "", ""),
+            ("call", C2, "self.remove", "i"),
+            ("call", C2, "self.insert_before", "i,new(self.head)"),
+            ("write", ("!(i==self.head)",), "self.head", "i"),
+        ],
+        "pop": [
+            ("write", (), "self.head", "self.data[self.head].prev"),
+            ("return", (), "self.data[self.head].prev", ""),
+        ],
+    }
+    why = {"remove": "bridge prev.next and next.prev over node i", "insert_before": "link i between `next` and its old predecessor",
+           "poke": "make i the head (moving it unless it already is the oldest, which only rotates)", "pop": "return the oldest (head.prev) and make it the head"}
+    # spellings that read the same state (`remove` does not touch node i itself, nor `head`)
+    C3 = ("(i!=self.head)", "(i!=self.data[self.head].prev)")
+    alt = {
+        "remove": [
+            [("write", (), "self.data[self.data[i].prev].next", "self.data[i].next"), ("write", (), "self.data[self.data[i].next].prev", "self.data[i].prev")],
+            [("write", (), "self.data[self.data[i].next].prev", "self.data[i].prev"), ("write", (), "self.data[self.data[i].prev].next", "new(self.data[i].next)")],
+        ],
+        "poke": [
+            [("return", ("(i==self.head)",), "", ""), ("call", C2, "self.remove", "i"), ("call", C2, "self.insert_before", "i,self.head"), ("write", ("!(i==self.head)",), "self.head", "i")],
+            [("call", C2, "self.remove", "i"), ("call", C2, "self.insert_before", "i,new(self.head)"), ("write", ("!(i==self.head)",), "self.head", "i")],
+            [("call", C3, "self.remove", "i"), ("call", C3, "self.insert_before", "i,new(self.head)"), ("write", ("(i!=self.head)",), "self.head", "i")],
+        ],
     }
     for name, w in want.items():
         fn = A.find_fn(LRU, name, self_ty="Lru", root=root)
-        got = A.ftxt(fn["body"])
-        if got == w:
+        got = E.summary(fn)
+        if sorted(got) == sorted(w) or any(sorted(got) == sorted(a) for a in alt.get(name, [])):
             rule.ok("Lru::%s has its summarised link updates" % name, file=LRU, line=fn["ln"])
         else:
-            rule.bad("lru|%s" % name, "Lru::%s changed: the doubly-linked recency list must %s" % (name, {"remove": "bridge prev.next and next.prev over node i", "insert_before": "link i between `next` and its old predecessor", "poke": "make i the head (moving it unless it already is the oldest, which only rotates)", "pop": "return the oldest (head.prev) and make it the head"}[name]), A.where(fn))
+            diff = [x for x in got if x not in w] or [x for x in w if x not in got]
+            rule.bad("lru|%s" % name, "Lru::%s changed: the doubly-linked recency list must %s; unexpected / missing effect: %s" % (name, why[name], diff[:2]), A.where(fn))
     fn = A.find_fn(LRU, "new", self_ty="Lru", root=root)
+    got = [x for x in E.summary(fn) if x[0] == "write"]
+    body = A.inline_lets_deep(fn["body"])
+    loops = [l for l in A.find(body, "For") if str(A.ftxt(l["iter"])) == "0..N"]
+    v = A.binding_name(loops[0]["pat"]) if len(loops) == 1 else None
+    wantw = {("%s.data[%s].next" % ("out", v), "((%s+1)%%N)" % v), ("%s.data[%s].prev" % ("out", v), "%s.checked_sub(1).unwrap_or((N-1))" % v)}
     t = A.ftxt(fn["body"])
-    if "out.data[i].next=(((i+1)%N)asu8);out.data[i].prev=(i.checked_sub(1).unwrap_or((N-1))asu8);" in t and "head:0" in t:
+    gotw = {(a, b) for _k, c, a, b in got if c == ("loop",)}
+    if v and gotw == wantw and "head:0" in t:
         rule.ok("Lru::new links all N nodes into one ring")
     else:
-        rule.bad("lru|new", "Lru::new must link node i to (i+1) mod N and (i-1) mod N", A.where(fn))
+        rule.bad("lru|new", "Lru::new must link node i to (i+1) mod N and (i-1) mod N for every i in 0..N, head 0 (found %s)" % sorted(gotw), A.where(fn))
 
 
 def run(ctx):
